@@ -24,7 +24,7 @@ class Poly:
 
     @staticmethod
     def atom(e):
-        k = e.get_id()
+        k = e.sexpr()          # canonical (allocation-independent) key: ordering of monomials is deterministic
         return Poly({((k, 1),): 1}, {k: e})
 
     def _merge_atoms(self, o):
@@ -121,9 +121,8 @@ def from_z3(e):
 
 
 def _divide_monomial(m, c, sm, sc):
-    """(c*m) / (sc*sm) if exact, else None.  Returns (coeff, monomial)."""
-    if c % sc != 0:
-        return None
+    """(c*m) divided by (sc*sm) with integer quotient and remainder on the coefficient:
+    returns (q, r, monomial m/sm) with c = q*sc + r, 0 <= r < |sc|, or None if sm does not divide m."""
     d = dict(m)
     for k, p in sm:
         if d.get(k, 0) < p:
@@ -131,15 +130,14 @@ def _divide_monomial(m, c, sm, sc):
         d[k] -= p
         if d[k] == 0:
             del d[k]
-    return c // sc, tuple(sorted(d.items()))
+    q, r = divmod(c, sc)
+    return q, r, tuple(sorted(d.items()))
 
 
 def decompose(flat, dims):
-    """Split Poly ``flat`` along the row-major strides of ``dims`` (list of Poly,
-    leading dimension ignored for strides).  Returns list of Poly components or
-    None.  Identity sum(c_d*stride_d) == flat holds by construction; the caller
-    must prove 0 <= c_d < dims[d] which makes the split the unique one.
-    """
+    """Split Poly ``flat`` along the row-major strides of ``dims`` (list of Poly, leading dimension ignored
+    for strides).  Returns list of Poly components or None.  The identity sum(c_d*stride_d) == flat holds by
+    construction; the caller must prove 0 <= c_d < dims[d], which makes the split the unique one."""
     n = len(dims)
     strides = [None] * n
     s = Poly.const(1)
@@ -148,22 +146,29 @@ def decompose(flat, dims):
         s = s * dims[d]
     comps = [Poly.const(0) for _ in range(n)]
     for m, c in flat.t.items():
-        placed = False
+        rem = c
         for d in range(n):
+            if rem == 0:
+                break
             st = strides[d]
             if len(st.t) != 1:
-                # stride not a monomial: only usable if equal (rare)
                 continue
             (sm, sc), = st.t.items()
-            q = _divide_monomial(m, c, sm, sc)
-            if q is not None:
-                qc, qm = q
-                comps[d] = comps[d] + Poly({qm: qc}, flat.atoms)
-                placed = True
-                break
-        if not placed:
+            res = _divide_monomial(m, rem, sm, sc)
+            if res is None:
+                continue
+            q, r, qm = res
+            if q != 0:
+                comps[d] = comps[d] + Poly({qm: q}, flat.atoms)
+            rem = r
+        if rem != 0:
             return None
-    # carry atoms
     for cpt in comps:
         cpt.atoms = dict(flat.atoms)
+    # self-check of the identity
+    tot = Poly.const(0)
+    for cpt, st in zip(comps, strides):
+        tot = tot + cpt * st
+    if not (tot - flat).is_zero():
+        return None
     return comps
